@@ -200,6 +200,7 @@ pub fn templates(seed: u64, n_random_each: usize, steps: usize) -> Vec<Scenario>
         c.continue_after_preemption = rng.gen_bool(0.5);
         c.max_idle_per_host = *[0usize, 1, 2, 32].choose(rng).unwrap();
         c.idle_timeout_ms = *[None, Some(0), Some(10_000)].choose(rng).unwrap();
+        c.open_ignores_busy = rng.gen_bool(0.5);
         c
     };
     let mut push = |name: &str, cfg: LabConfig, ops: Vec<Op>, rng: &mut StdRng, out: &mut Vec<Scenario>| {
@@ -292,7 +293,7 @@ pub fn templates(seed: u64, n_random_each: usize, steps: usize) -> Vec<Scenario>
 
         // T9: several origins at once (C06)
         let mut c = cfgs(&mut rng);
-        c.origins = vec![origin("http://a.test"), origin("https://a.test"), origin("http://a.test:81"), origin("http://A.test"), origin("http://b.test")];
+        c.origins = vec![origin("http://a.test"), origin("https://a.test"), origin("http://a.test:81"), origin("http://A.test"), origin("http://b.test"), origin("http://a.test:443"), origin("https://a.test:80"), origin("http://a.test:80")];
         let mut ops = vec![];
         ops.extend(exchange(0, false, 0, 0));
         ops.extend(exchange(1, false, 1, 1));
@@ -335,12 +336,13 @@ pub fn random_walks(seed: u64, n: usize) -> Vec<Scenario> {
         c.continue_after_preemption = rng.gen_bool(0.5);
         c.max_idle_per_host = *[0usize, 1, 2, 3, 32].choose(&mut rng).unwrap();
         c.idle_timeout_ms = *[None, Some(0), Some(10_000)].choose(&mut rng).unwrap();
+        c.open_ignores_busy = rng.gen_bool(0.5);
         match i % 5 {
             0 => {}
-            1 => c.origins = vec![origin("http://a.test"), origin("https://a.test")],
+            1 => c.origins = vec![origin("http://a.test"), origin("https://a.test"), origin("http://a.test:443"), origin("https://a.test:80")],
             2 => c.origins = vec![origin("http://a.test"), origin("http://a.test:81"), origin("http://b.test")],
             3 => c.origins = vec![OriginCfg { uri: "https://alpn.test".into(), alpn_h2: true }, origin("http://A.test"), origin("http://a.test")],
-            _ => c.origins = vec![origin("ws://a.test"), origin("http://a.test")],
+            _ => c.origins = vec![origin("ws://a.test"), origin("http://a.test"), origin("http://a.test:80"), origin("ws://a.test:443")],
         }
         let mut s = Scenario::new("random-walk", c, vec![]);
         s.random = Some((rng.gen(), rng.gen_range(10..60)));
@@ -365,6 +367,41 @@ pub fn random_walks(seed: u64, n: usize) -> Vec<Scenario> {
 pub fn expiry_scenarios(seed: u64, n: usize) -> Vec<Scenario> {
     let mut rng = StdRng::seed_from_u64(seed ^ 0xe9);
     let mut out = Vec::new();
+    // directed: connections of different idle age, the newer ones closed by the peer, so that the pool has to look
+    // past a closed entry at an older (expired or still fresh) one
+    for k in [2usize, 3] {
+        for (old_gap, fresh_wait) in [(130u64, 0u64), (130, 10), (0, 10), (20, 0)] {
+            for close_newest in [1usize, 2] {
+                for timeout in [Some(60u64), Some(0), None] {
+                    let mut c = default_config();
+                    c.idle_timeout_ms = timeout;
+                    c.max_idle_per_host = 8;
+                    let mut ops = vec![];
+                    for r in 0..k {
+                        ops.extend([Op::Issue { origin: 0, h2: false }, Op::Poll(r), Op::DialOk(r), Op::Poll(r), Op::HsOk(r), Op::Poll(r)]);
+                    }
+                    // the first connection becomes idle long before the others
+                    ops.extend([Op::Respond(0), Op::Poll(0), Op::BodyDone(0), Op::Bg, Op::Bg]);
+                    if old_gap > 0 {
+                        ops.push(Op::Sleep(old_gap));
+                    }
+                    for r in 1..k {
+                        ops.extend([Op::Respond(r), Op::Poll(r), Op::BodyDone(r), Op::Bg, Op::Bg]);
+                    }
+                    if fresh_wait > 0 {
+                        ops.push(Op::Sleep(fresh_wait));
+                    }
+                    for j in 0..close_newest.min(k - 1) {
+                        ops.push(Op::Close(k - 1 - j));
+                    }
+                    ops.extend([Op::Issue { origin: 0, h2: false }, Op::Poll(k), Op::Issue { origin: 0, h2: false }, Op::Poll(k + 1)]);
+                    let mut s = Scenario::new("idle-expiry-directed", c, ops);
+                    s.max_reqs = k + 3;
+                    out.push(s);
+                }
+            }
+        }
+    }
     for i in 0..n {
         let mut c = default_config();
         let timeout = 60u64;
@@ -656,7 +693,7 @@ pub fn run(args: &Args) -> Report {
 
     // idle expiry (real time): only for the properties that need it
     if args.wants("C05") || args.wants("C04") {
-        let ex = expiry_scenarios(args.seed, if thorough { 1600 } else { 160 });
+        let ex = expiry_scenarios(args.seed, if thorough { 3200 } else { 320 });
         let exr = &ex;
         let part = crate::report::parallel(args.threads, ex.len() as u64, "poollab", |i, r| {
             let sc = &exr[i as usize];
@@ -684,6 +721,7 @@ pub fn run(args: &Args) -> Report {
             let mut cfg = default_config();
             cfg.continue_after_preemption = cont;
             cfg.max_idle_per_host = 1;
+            cfg.open_ignores_busy = cont;
             exhaustive(args, cfg, if mix == (true, true) { 2 } else { 3 }, mix, depth, nodes / 6, &mut rep);
         }
     }
